@@ -1294,7 +1294,8 @@ impl Evaluator {
             "format_time" => match (get!(0), get!(1)) {
                 (Some(t), Some(RVal::Str(fmt))) if t.is_num() => {
                     let RVal::Int(secs) = t else { return U };
-                    if !(0..=4_102_444_800).contains(&secs) {
+                    // years 0001..9999 (seconds count from 1970-01-01T00:00:00Z, negative before)
+                    if !(-62_135_596_800..=253_402_300_799).contains(&secs) {
                         return U;
                     }
                     let (days, rem) = (secs.div_euclid(86400) as i64, secs.rem_euclid(86400) as i64);
